@@ -244,9 +244,18 @@ class Prog:
         what = "%s_%s%s" % (api, req["form"], "_all" if coll else "")
         if expect is not None:
             self.expect_rc(n, [rank], expect, what)
-        exp_vals, exp_mask = fm.read(req["var"], idx) if len(idx) else (np.zeros(0), np.zeros(0, dtype=np.uint8))
-        exp_vals = np.array(exp_vals).astype(md) if len(idx) else exp_vals
-        exp_mask = np.array(exp_mask).copy()
+        holder = {}
+
+        def refresh(model=fm):
+            """(re)capture the expected values: for nonblocking gets call this when the wait completes"""
+            if len(idx):
+                ev, em = model.read(req["var"], idx)
+                holder["vals"] = np.array(ev).astype(md)
+                holder["mask"] = np.array(em).copy()
+            else:
+                holder["vals"] = np.zeros(0, dtype=md)
+                holder["mask"] = np.zeros(0, dtype=np.uint8)
+        refresh()
         esz = md.itemsize
 
         def verify(res, nn):
@@ -262,8 +271,8 @@ class Prog:
                 pos = (offs[mempos][:, None] + np.arange(esz)[None, :])
                 sel[pos.reshape(-1)] = True
                 gv = got[pos.reshape(-1)].reshape(len(idx), esz).copy().view(md).reshape(-1)
-                known = exp_mask != 0
-                ev = exp_vals
+                known = holder["mask"] != 0
+                ev = holder["vals"]
                 bad = known & (gv.view(np.uint8).reshape(len(idx), esz) != np.ascontiguousarray(ev).view(np.uint8).reshape(len(idx), esz)).any(axis=1)
                 if bad.any():
                     j = int(np.argmax(bad))
@@ -274,6 +283,9 @@ class Prog:
                 out.append({"kind": "rbuf_extra", "msg": "stmt %d (%s) rank %d: read modified bytes outside the selected elements" % (nn, what, rank),
                             "sig": {"kind": "rbuf_extra", "op": what}})
             return out
+        verify.refresh = refresh
+        verify.idx = idx
+        verify.holder = holder
         if api == "get" and compare:
             self.checks.append(lambda res: verify(res, n) if (res.rc(n, rank) in (0, M.E["ERANGE"])) else [])
         return n, slot, verify
